@@ -12,6 +12,7 @@ func (vm *vm) vtLate() string                           { return "" }
 func (vm *vm) vtSeg(ev string, ts, is, rs, st int)      {}
 func (r *Runtime) vtJob(ev string, id uint64, a string) {}
 
+func verifAccess(dataLen, byteOff, n int)                   {}
 func verifThrowClass(arg interface{}, ex *Exception) string { return "" }
 func verifFinallyKind(exc bool, ret int32) string           { return "" }
 func verifOutcome(err error) string                         { return "" }
